@@ -497,6 +497,16 @@ def search(ctx):
     bases = fixed_bases() + [rand_basis(rng) for _ in range(ctx.n(1200, 8000) * mult)]
     items = [(b, keep) for b in bases for keep in (False, True)]
     mos = [op[1] for op in c12.constructs()] + [rand_mo_args(rng) for _ in range(ctx.n(6000, 80000) * mult)]
+    # almost-integer occupations (as read from a text file): the integer/fractional heuristic must take the same
+    # branch for alpha and beta
+    near = []
+    for a in mos:
+        if a.get("kind") == "r" and a.get("occs") and a.get("aminusb") is None and len(near) < ctx.n(1500, 20000):
+            eps = rng.choice([1e-7, -1e-7, 3e-8, -1e-9, 1e-6, -1e-6])
+            b = dict(a)
+            b["occs"] = tuple(float(x) + (eps if float(x) == int(float(x)) and rng.random() < 0.7 else 0.0) for x in a["occs"])
+            near.append(b)
+    mos += near
     with mp.get_context("fork").Pool(min(14, mp.cpu_count())) as pool:
         res_b = pool.map(_basis_work, items, chunksize=20)
         res_m = pool.map(_mo_work, mos, chunksize=500)
